@@ -176,10 +176,16 @@ type funcInfo struct {
 	rnames  []string
 	extPkg  *types.Package
 	hasRecv bool
+	// function literal: the enclosing declared function and the path of 1-based ordinals (X$2$1 = [2 1])
+	anonOf   *types.Func
+	anonPath []int
 }
 
 func (eng *Engine) lookupFunc(p *packages.Package, name string) (*funcInfo, error) {
 	name = strings.TrimSpace(name)
+	if i := strings.Index(name, "$"); i > 0 {
+		return eng.lookupFuncLit(p, name[:i], name[i:])
+	}
 	var obj *types.Func
 	scope := p.Types.Scope()
 	pkg := p.Types
@@ -289,6 +295,64 @@ func (eng *Engine) lookupFunc(p *packages.Package, name string) (*funcInfo, erro
 				fi.decl = fd
 			}
 		}
+	}
+	return fi, nil
+}
+
+// lookupFuncLit resolves "F$2$1": the first function literal inside the second function literal of F (numbered in
+// source order, as go/ssa names them). The literal is wrapped in a synthetic declaration so that scopes, loops and call
+// ordinals are computed over its own body; captured variables are found through the scope chain like other locals.
+func (eng *Engine) lookupFuncLit(p *packages.Package, base, suffix string) (*funcInfo, error) {
+	parent, err := eng.lookupFunc(p, base)
+	if err != nil {
+		return nil, err
+	}
+	if parent.decl == nil || parent.decl.Body == nil {
+		return nil, fmt.Errorf("function %q has no body here", base)
+	}
+	var path []int
+	for _, part := range strings.Split(strings.TrimPrefix(suffix, "$"), "$") {
+		var k int
+		if _, err := fmt.Sscanf(part, "%d", &k); err != nil || k < 1 {
+			return nil, fmt.Errorf("bad function literal ordinal in %q", base+suffix)
+		}
+		path = append(path, k)
+	}
+	var body ast.Node = parent.decl.Body
+	var lit *ast.FuncLit
+	for _, k := range path {
+		var lits []*ast.FuncLit
+		ast.Inspect(body, func(n ast.Node) bool {
+			if fl, ok := n.(*ast.FuncLit); ok {
+				lits = append(lits, fl)
+				return false
+			}
+			return true
+		})
+		if k > len(lits) {
+			return nil, fmt.Errorf("function literal %q not found (%d literals at that level)", base+suffix, len(lits))
+		}
+		lit = lits[k-1]
+		body = lit.Body
+	}
+	sig, ok := p.TypesInfo.TypeOf(lit).(*types.Signature)
+	if !ok {
+		return nil, fmt.Errorf("no type for function literal %q", base+suffix)
+	}
+	fi := &funcInfo{sig: sig, anonOf: parent.obj, anonPath: path}
+	fi.decl = &ast.FuncDecl{Name: ast.NewIdent(base + suffix), Type: lit.Type, Body: lit.Body}
+	for i := 0; i < sig.Params().Len(); i++ {
+		v := sig.Params().At(i)
+		n := v.Name()
+		if n == "" || n == "_" {
+			n = fmt.Sprintf("p%d", i)
+		}
+		fi.pnames = append(fi.pnames, n)
+		fi.ptypes = append(fi.ptypes, v.Type())
+	}
+	for i := 0; i < sig.Results().Len(); i++ {
+		fi.rtypes = append(fi.rtypes, sig.Results().At(i).Type())
+		fi.rnames = append(fi.rnames, sig.Results().At(i).Name())
 	}
 	return fi, nil
 }
@@ -932,6 +996,23 @@ func (eng *Engine) ssaFuncFor(p *packages.Package, name string) *ssa.Function {
 	if err != nil {
 		return nil
 	}
+	if fi.obj == nil && fi.anonOf != nil {
+		fn := eng.prog.FuncValue(fi.anonOf)
+		for _, k := range fi.anonPath {
+			if fn == nil || k > len(fn.AnonFuncs) {
+				return nil
+			}
+			fn = fn.AnonFuncs[k-1]
+		}
+		// go/ssa numbers literals in the order it builds them: make sure that is the literal the contract names
+		if fn != nil && fi.decl != nil {
+			a, b := eng.fset.Position(fn.Pos()), eng.fset.Position(fi.decl.Type.Func)
+			if a.Line != b.Line || filepath.Base(a.Filename) != filepath.Base(b.Filename) {
+				return nil
+			}
+		}
+		return fn
+	}
 	return eng.prog.FuncValue(fi.obj)
 }
 
@@ -1217,6 +1298,55 @@ func (eng *Engine) localAlloc(fn *ssa.Function, p ClauseParam) *ssa.Alloc {
 					return a
 				}
 			}
+		}
+	}
+	return nil
+}
+
+// privateCapture: the i-th captured variable of the function literal fn is a local of the enclosing function that is
+// captured by this literal only, and both functions use its address for loads and stores alone.
+func (eng *Engine) privateCapture(fn *ssa.Function, i int) bool {
+	parent := fn.Parent()
+	if parent == nil || i >= len(fn.FreeVars) {
+		return false
+	}
+	var mk *ssa.MakeClosure
+	for _, b := range parent.Blocks {
+		for _, ins := range b.Instrs {
+			if m, ok := ins.(*ssa.MakeClosure); ok && m.Fn == ssa.Value(fn) {
+				if mk != nil {
+					return false
+				}
+				mk = m
+			}
+		}
+	}
+	if mk == nil || i >= len(mk.Bindings) {
+		return false
+	}
+	a, ok := mk.Bindings[i].(*ssa.Alloc)
+	if !ok || eng.escapeInfo(parent)[a] {
+		return false
+	}
+	if refs := a.Referrers(); refs != nil {
+		for _, r := range *refs {
+			if m, ok := r.(*ssa.MakeClosure); ok && m != mk {
+				return false
+			}
+		}
+	}
+	return !eng.valueEscapes(fn.FreeVars[i], map[ssa.Value]bool{}, 0)
+}
+
+// localFreeVar: the captured variable a clause of a function literal names (matched by its declaration position).
+func (eng *Engine) localFreeVar(fn *ssa.Function, p ClauseParam) *ssa.FreeVar {
+	for _, fv := range fn.FreeVars {
+		if fv.Pos() == token.NoPos {
+			continue
+		}
+		pp := eng.fset.Position(fv.Pos())
+		if pp.Filename == p.File && pp.Offset == p.Off {
+			return fv
 		}
 	}
 	return nil
